@@ -1,8 +1,15 @@
 //! C16 correspondence: synthesised glyf/loca tables -> LocaTable/GlyfTable -> OutlineBuilder::visit with a
 //! recording OutlineSink.
-//!   input  = GID|g0,g1,...[|Pcontours]   gN = the bytes of glyph N in hex ('-' = zero-length loca entry);
-//!            the optional third field (ignored here, used by the judge) lists the contours glyph GID is
-//!            meant to encode: points `on,x,y` separated by spaces, contours by '/'
+//!   input  = GID|g0,g1,...[|Pcontours][|Lspec]
+//!            gN = the bytes of glyph N ('-' = zero-length loca entry): hex, or segments joined by '+', a
+//!            segment being HEX or COUNT*HEX (HEX repeated COUNT times); `COUNT#g` stands for COUNT
+//!            consecutive glyphs g.
+//!            P... (ignored here, used by the judge) lists the contours glyph GID is meant to encode:
+//!            points `on,x,y` (or `COUNT*on,x,y`) separated by spaces, contours by '/'.
+//!            L... = the loca table: `Ll` (default) / `Ls` = the long / short loca that describes g0,g1,...
+//!            laid out one after the other (short: every stored value is offset / 2, truncated to 16 bits);
+//!            `Ll:N:BYTES` / `Ls:N:BYTES` = these loca bytes, read with numGlyphs = N; the glyf table is
+//!            the concatenation of g0,g1,...
 //!   output = ok:CMD CMD ...     CMD = M:x:y | L:x:y | Q:cx:cy:x:y | C:... | Z ; numbers = f32 bits, 8 hex digits
 //!          | err:Name | panic
 use allsorts::binary::read::ReadScope;
@@ -41,34 +48,118 @@ impl OutlineSink for Rec {
     }
 }
 
-pub fn run(input: &str) -> String {
-    let parts: Vec<&str> = input.split('|').collect();
-    if parts.len() != 2 && parts.len() != 3 {
-        return "badinput".to_string();
+/// the bytes a glyph entry / loca field stands for: segments joined by '+', a segment is HEX or COUNT*HEX
+fn expand(s: &str) -> Option<Vec<u8>> {
+    if s == "-" || s.is_empty() {
+        return Some(vec![]);
     }
-    let gid: u16 = match parts[0].parse() {
-        Ok(g) => g,
-        Err(_) => return "badinput".to_string(),
+    let mut out = vec![];
+    for seg in s.split('+') {
+        if let Some((n, h)) = seg.split_once('*') {
+            let n: usize = n.parse().ok()?;
+            let b = unhex(h);
+            if n.saturating_mul(b.len()) > (1 << 26) {
+                return None;
+            }
+            for _ in 0..n {
+                out.extend_from_slice(&b);
+            }
+        } else {
+            out.extend_from_slice(&unhex(seg));
+        }
+    }
+    Some(out)
+}
+
+struct Case {
+    gid: u16,
+    num_glyphs: usize,
+    format: IndexToLocFormat,
+    loca: Vec<u8>,
+    glyf: Vec<u8>,
+}
+
+fn parse_case(input: &str) -> Option<Case> {
+    let parts: Vec<&str> = input.split('|').collect();
+    if parts.len() < 2 || parts.len() > 4 {
+        return None;
+    }
+    let gid: u16 = parts[0].parse().ok()?;
+    let mut glyphs: Vec<Vec<u8>> = vec![];
+    if !parts[1].is_empty() {
+        for e in parts[1].split(',') {
+            if let Some((n, g)) = e.split_once('#') {
+                let n: usize = n.parse().ok()?;
+                if n > (1 << 17) {
+                    return None;
+                }
+                let g = expand(g)?;
+                for _ in 0..n {
+                    glyphs.push(g.clone());
+                }
+            } else {
+                glyphs.push(expand(e)?);
+            }
+        }
+    }
+    let mut lspec = "Ll";
+    for p in &parts[2..] {
+        match p.chars().next() {
+            Some('P') => {}
+            Some('L') => lspec = p,
+            _ => return None,
+        }
+    }
+    let format = match lspec.as_bytes().get(1) {
+        Some(b'l') => IndexToLocFormat::Long,
+        Some(b's') => IndexToLocFormat::Short,
+        _ => return None,
     };
-    let glyphs: Vec<Vec<u8>> = if parts[1].is_empty() { vec![] } else { parts[1].split(',').map(unhex).collect() };
     let mut glyf: Vec<u8> = vec![];
-    let mut loca: Vec<u8> = vec![];
+    let mut offsets: Vec<usize> = vec![];
     for g in &glyphs {
-        loca.extend_from_slice(&(glyf.len() as u32).to_be_bytes());
+        offsets.push(glyf.len());
         glyf.extend_from_slice(g);
     }
-    loca.extend_from_slice(&(glyf.len() as u32).to_be_bytes());
+    offsets.push(glyf.len());
+    if lspec.len() > 2 {
+        // explicit loca bytes
+        let rest: Vec<&str> = lspec[2..].split(':').collect();
+        if rest.len() != 3 || !rest[0].is_empty() {
+            return None;
+        }
+        let num_glyphs: usize = rest[1].parse().ok()?;
+        if num_glyphs > (1 << 17) {
+            return None;
+        }
+        return Some(Case { gid, num_glyphs, format, loca: expand(rest[2])?, glyf });
+    }
+    let mut loca: Vec<u8> = vec![];
+    for o in offsets {
+        match format {
+            IndexToLocFormat::Long => loca.extend_from_slice(&(o as u32).to_be_bytes()),
+            IndexToLocFormat::Short => loca.extend_from_slice(&((o / 2) as u16).to_be_bytes()),
+        }
+    }
+    Some(Case { gid, num_glyphs: glyphs.len(), format, loca, glyf })
+}
+
+pub fn run(input: &str) -> String {
+    let case = match parse_case(input) {
+        Some(c) => c,
+        None => return "badinput".to_string(),
+    };
     let r = catch_unwind(AssertUnwindSafe(|| {
-        let loca = match ReadScope::new(&loca).read_dep::<LocaTable<'_>>((glyphs.len(), IndexToLocFormat::Long)) {
+        let loca = match ReadScope::new(&case.loca).read_dep::<LocaTable<'_>>((case.num_glyphs, case.format)) {
             Ok(l) => l,
             Err(e) => return format!("err:{}", perr(&e)),
         };
-        let mut table = match ReadScope::new(&glyf).read_dep::<GlyfTable<'_>>(&loca) {
+        let mut table = match ReadScope::new(&case.glyf).read_dep::<GlyfTable<'_>>(&loca) {
             Ok(t) => t,
             Err(e) => return format!("err:{}", perr(&e)),
         };
         let mut rec = Rec(vec![]);
-        match table.visit(gid, &mut rec) {
+        match table.visit(case.gid, &mut rec) {
             Ok(()) => format!("ok:{}", rec.0.join(" ")),
             Err(e) => format!("err:{}", perr(&e)),
         }
@@ -162,6 +253,11 @@ fn gen_contours(rng: &mut Rng) -> Vec<Vec<Pt>> {
 /// run-length grouping (incl. count 0), reserved bits
 fn encode_points(rng: &mut Rng, pts: &[Pt]) -> (Vec<u8>, Vec<u8>, Vec<u8>) {
     let compact = rng.below(4); // 0: always smallest, 1: always long, else random
+    let rle = rng.below(3); // 0: never, 1: greedy, 2: random
+    encode_points_as(rng, pts, compact, rle)
+}
+
+fn encode_points_as(rng: &mut Rng, pts: &[Pt], compact: u64, rle: u64) -> (Vec<u8>, Vec<u8>, Vec<u8>) {
     let mut flags: Vec<u8> = vec![];
     let (mut xs, mut ys) = (vec![], vec![]);
     let (mut px, mut py) = (0i32, 0i32);
@@ -206,7 +302,6 @@ fn encode_points(rng: &mut Rng, pts: &[Pt]) -> (Vec<u8>, Vec<u8>, Vec<u8>) {
         py = p.y;
     }
     // run-length encode
-    let rle = rng.below(3); // 0: never, 1: greedy, 2: random
     let mut fb = vec![];
     let mut i = 0;
     while i < flags.len() {
@@ -242,9 +337,104 @@ fn simple_glyph(rng: &mut Rng, malform: bool) -> Vec<u8> {
 fn hint(contours: &[Vec<Pt>]) -> String {
     let cs: Vec<String> = contours
         .iter()
-        .map(|c| c.iter().map(|p| format!("{},{},{}", p.on as u8, p.x, p.y)).collect::<Vec<_>>().join(" "))
+        .map(|c| {
+            // COUNT*on,x,y for four or more identical consecutive points
+            let mut toks: Vec<String> = vec![];
+            let mut i = 0;
+            while i < c.len() {
+                let mut run = 1;
+                while i + run < c.len() && c[i + run].on == c[i].on && c[i + run].x == c[i].x && c[i + run].y == c[i].y {
+                    run += 1;
+                }
+                let one = format!("{},{},{}", c[i].on as u8, c[i].x, c[i].y);
+                if run >= 4 {
+                    toks.push(format!("{}*{}", run, one));
+                } else {
+                    for _ in 0..run {
+                        toks.push(one.clone());
+                    }
+                }
+                i += run;
+            }
+            toks.join(" ")
+        })
         .collect();
     format!("P{}", cs.join("/"))
+}
+
+/// compact text of a byte string: a pattern of up to 64 bytes repeated over at least 48 bytes becomes COUNT*HEX
+fn chex(b: &[u8]) -> String {
+    if b.len() < 96 {
+        return hex(b);
+    }
+    let mut segs: Vec<String> = vec![];
+    let (mut lit, mut i) = (0usize, 0usize);
+    while i < b.len() {
+        let mut best: Option<(usize, usize)> = None;
+        if b.len() - i >= 48 {
+            for p in 1..=64usize {
+                if i + 2 * p > b.len() {
+                    break;
+                }
+                if b[i..i + p] != b[i + p..i + 2 * p] {
+                    continue;
+                }
+                let mut reps = 2;
+                while i + (reps + 1) * p <= b.len() && b[i + reps * p..i + (reps + 1) * p] == b[i..i + p] {
+                    reps += 1;
+                }
+                if reps * p >= 48 {
+                    best = Some((p, reps));
+                    break;
+                }
+            }
+        }
+        match best {
+            Some((p, reps)) => {
+                if lit < i {
+                    segs.push(hex(&b[lit..i]));
+                }
+                segs.push(format!("{}*{}", reps, hex(&b[i..i + p])));
+                i += reps * p;
+                lit = i;
+            }
+            None => i += 1,
+        }
+    }
+    if lit < b.len() {
+        segs.push(hex(&b[lit..]));
+    }
+    segs.join("+")
+}
+
+fn glyph_list(glyphs: &[Vec<u8>]) -> String {
+    glyphs.iter().map(|g| chex(g)).collect::<Vec<_>>().join(",")
+}
+
+/// instruction bytes used to make a glyph (and so the glyf table) large: one short pattern repeated
+fn filler(rng: &mut Rng, n: usize) -> Vec<u8> {
+    let pat: Vec<u8> = match rng.below(5) {
+        0 => vec![0],
+        1 => vec![0x4f],
+        2 => rng.bytes(3),
+        // the bytes of a small glyph: whatever is read from a wrong place inside parses as an outline
+        3 => unhex("000100000000006400640003000001010101000000640000ff9c0000000000640000"),
+        _ => {
+            let cs = gen_contours(rng);
+            let mut g = simple_glyph_as(rng, false, &cs, Some(vec![]));
+            if g.len() % 2 == 1 {
+                g.push(0);
+            }
+            g.truncate(64);
+            g
+        }
+    };
+    let mut out = Vec::with_capacity(n);
+    while out.len() < n {
+        let k = pat.len().min(n - out.len());
+        out.extend_from_slice(&pat[..k]);
+    }
+    out
 }
 
 /// the glyph bytes and the contours they are meant to encode
@@ -255,6 +445,11 @@ fn simple_glyph_pts(rng: &mut Rng, malform: bool) -> (Vec<u8>, Vec<Vec<Pt>>) {
 }
 
 fn simple_glyph_of(rng: &mut Rng, malform: bool, contours: &[Vec<Pt>]) -> Vec<u8> {
+    simple_glyph_as(rng, malform, contours, None)
+}
+
+/// `instr`: the instruction bytes to use (None: a few random ones, or none)
+fn simple_glyph_as(rng: &mut Rng, malform: bool, contours: &[Vec<Pt>], instr: Option<Vec<u8>>) -> Vec<u8> {
     let pts: Vec<Pt> = contours.iter().flatten().copied().collect();
     let mut g = vec![];
     g.extend_from_slice(&be16(contours.len() as i32));
@@ -281,10 +476,22 @@ fn simple_glyph_of(rng: &mut Rng, malform: bool, contours: &[Vec<Pt>]) -> Vec<u8
     for e in &ends {
         g.extend_from_slice(&be16(*e));
     }
-    let ilen = if rng.chance(1, 3) { rng.range(1, 6) as usize } else { 0 };
-    g.extend_from_slice(&be16(ilen as i32));
-    g.extend_from_slice(&rng.bytes(ilen));
-    let (mut fb, mut xs, ys) = encode_points(rng, &pts);
+    let instr = match instr {
+        Some(i) => i,
+        None => {
+            let ilen = if rng.chance(1, 3) { rng.range(1, 6) as usize } else { 0 };
+            rng.bytes(ilen)
+        }
+    };
+    g.extend_from_slice(&be16(instr.len() as i32));
+    g.extend_from_slice(&instr);
+    // many points: the smallest encoding with greedy repeat records (a few hundred bytes for 65536 points)
+    let (mut fb, mut xs, ys) = if pts.len() > 2000 {
+        let rle = if rng.chance(1, 4) { 2 } else { 1 };
+        encode_points_as(rng, &pts, 0, rle)
+    } else {
+        encode_points(rng, &pts)
+    };
     match mal {
         3 if !fb.is_empty() => {
             // repeat count running past the last point
@@ -434,6 +641,10 @@ fn component(rng: &mut Rng, target: u16, more: bool, scales: bool, exotic: bool,
 }
 
 fn composite_glyph(rng: &mut Rng, targets: &[u16], scales: bool, exotic: bool) -> Vec<u8> {
+    composite_glyph_as(rng, targets, scales, exotic, None)
+}
+
+fn composite_glyph_as(rng: &mut Rng, targets: &[u16], scales: bool, exotic: bool, fill: Option<Vec<u8>>) -> Vec<u8> {
     let mut g = vec![0xff, 0xff];
     if rng.chance(1, 20) {
         g = vec![0x80 | rng.below(128) as u8, rng.below(256) as u8]; // any negative count
@@ -442,13 +653,16 @@ fn composite_glyph(rng: &mut Rng, targets: &[u16], scales: bool, exotic: bool) -
         let v = rng.range(-2000, 2000) as i32;
         g.extend_from_slice(&be16(v));
     }
-    let instr = rng.chance(1, 6);
+    let instr = fill.is_some() || rng.chance(1, 6);
     for (i, t) in targets.iter().enumerate() {
         let last = i + 1 == targets.len();
         let wi = instr && (last || rng.chance(1, 2));
         g.extend_from_slice(&component(rng, *t, !last, scales, exotic, wi));
     }
-    if instr {
+    if let Some(fill) = fill {
+        g.extend_from_slice(&be16(fill.len() as i32));
+        g.extend_from_slice(&fill);
+    } else if instr {
         let n = rng.range(0, 4) as usize;
         g.extend_from_slice(&be16(n as i32));
         g.extend_from_slice(&rng.bytes(n));
@@ -456,7 +670,287 @@ fn composite_glyph(rng: &mut Rng, targets: &[u16], scales: bool, exotic: bool) -
     g
 }
 
+/// contours adding up to exactly `total` points: a few random contours among runs of points that share one
+/// flag byte (coincident, or one unit apart), so that the packed encoding stays small.  No contour has
+/// more than 200 points.
+fn boundary_contours(rng: &mut Rng, total: usize) -> Vec<Vec<Pt>> {
+    let mut out: Vec<Vec<Pt>> = vec![];
+    let mut left = total;
+    let (mut px, mut py) = (0i32, 0i32);
+    let real_rate = if total > 10000 { *rng.pick(&[40u64, 200]) } else { *rng.pick(&[10u64, 40, 200]) };
+    let all_on = rng.chance(2, 3);
+    // no jump between the runs: one flag byte for hundreds of points across contours, so that repeat
+    // records reach the largest count (255) and span contours
+    let still = rng.chance(1, 3);
+    while left > 0 {
+        let mut c = vec![];
+        if rng.chance(1, real_rate) || (left <= 12 && rng.chance(1, 2)) {
+            let np = (rng.range(1, 12) as usize).min(left);
+            for _ in 0..np {
+                let x = coord(rng, 0, px);
+                let y = coord(rng, 0, py);
+                px = x;
+                py = y;
+                c.push(Pt { on: rng.chance(1, 2), x, y });
+            }
+        } else {
+            // (the model's cost grows with contours x points: mostly long runs when there are many points)
+            let np = match rng.below(if total > 10000 { 24 } else { 8 }) {
+                0 => 1,
+                1 => 2,
+                2 => *rng.pick(&[127usize, 128, 129]),
+                3 => rng.range(3, 40) as usize,
+                4..=7 => rng.range(100, 200) as usize,
+                _ => rng.range(170, 200) as usize,
+            }
+            .min(left);
+            let on = all_on || (!still && rng.chance(1, 2));
+            let (sx, sy) = if still {
+                (0, 0)
+            } else {
+                *rng.pick(&[(0i32, 0i32), (0, 0), (0, 0), (1, 0), (0, 1), (-1, 0), (1, 1), (0, -1)])
+            };
+            if px.abs() > 20000 || py.abs() > 20000 {
+                px = 0;
+                py = 0;
+            }
+            if !still || rng.chance(1, 20) {
+                px += rng.range(-200, 200) as i32;
+                py += rng.range(-200, 200) as i32;
+            }
+            for k in 0..np {
+                if k > 0 {
+                    px += sx;
+                    py += sy;
+                }
+                c.push(Pt { on, x: px, y: py });
+            }
+        }
+        left -= c.len();
+        out.push(c);
+    }
+    out
+}
+
+/// a simple glyph whose number of points sits on a width boundary of the format (point numbers are
+/// uint16, repeat counts uint8, the contour count int16): (bytes, contours)
+fn boundary_glyph(rng: &mut Rng, huge: bool) -> (Vec<u8>, Vec<Vec<Pt>>) {
+    let total: usize = if huge {
+        *rng.pick(&[65536usize, 65536, 65536, 65535, 65535, 65534, 32767, 32768, 32769, 65536 - 256, 65536 - 255])
+    } else {
+        match rng.below(4) {
+            0 => *rng.pick(&[255usize, 256, 257, 511, 512, 513]),
+            1 => rng.range(250, 520) as usize,
+            2 => *rng.pick(&[1023usize, 1024, 4095, 4096, 4097]),
+            _ => rng.range(300, 3000) as usize,
+        }
+    };
+    let contours = boundary_contours(rng, total);
+    let g = simple_glyph_as(rng, false, &contours, None);
+    (g, contours)
+}
+
+/// a composite DAG: glyph i refers to glyphs with a larger index.  `fill(rng, i)`: instruction bytes for glyph i
+fn dag_glyphs(rng: &mut Rng, n: usize, wild: bool, fill: &mut dyn FnMut(&mut Rng, usize) -> Option<Vec<u8>>) -> Vec<Vec<u8>> {
+    let mut glyphs: Vec<Vec<u8>> = vec![];
+    let scales = rng.chance(1, 2);
+    let exotic = wild && rng.chance(1, 8);
+    let nsimple = rng.range(1, 2.max(n as i64 / 2)) as usize;
+    for i in 0..n {
+        let fl = fill(rng, i);
+        if i >= n - nsimple {
+            let bad = wild && rng.chance(1, 30);
+            let cs = gen_contours(rng);
+            let mut g = simple_glyph_as(rng, bad, &cs, fl);
+            if wild && rng.chance(1, 12) {
+                g = vec![];
+            }
+            glyphs.push(g);
+        } else {
+            let nc = match rng.below(6) {
+                0..=2 => 1,
+                3..=4 => 2,
+                _ => 3,
+            };
+            let mut ts = vec![];
+            for _ in 0..nc {
+                let t = if wild && rng.chance(1, 40) {
+                    rng.below(n as u64 + 2) as u16 // any: cycles, out of range
+                } else if rng.chance(1, 2) {
+                    (i + 1) as u16
+                } else {
+                    rng.range(i as i64 + 1, n as i64 - 1) as u16
+                };
+                ts.push(t);
+            }
+            let mut g = composite_glyph_as(rng, &ts, scales, exotic, fl);
+            if wild && rng.chance(1, 40) && !g.is_empty() {
+                let cut = rng.below(g.len() as u64) as usize;
+                g.truncate(cut);
+            }
+            glyphs.push(g);
+        }
+    }
+    glyphs
+}
+
+/// table level: glyph records laid out behind each other and addressed by a short or a long loca;
+/// glyph data beyond 64 KiB / up to the largest offset the short format can express / beyond it (long),
+/// records that start exactly on such a boundary or span it, first / last / empty glyphs, many glyphs
+fn gen_table(rng: &mut Rng) -> String {
+    let mut short = rng.chance(2, 3);
+    // which glyphs are made large, and by how much
+    let n = rng.range(2, 9) as usize;
+    let size_class = rng.below(8); // 0: small table, 1..: large
+    let nbig = if size_class == 0 { 0 } else { rng.range(1, 3) as usize };
+    let mut plan: Vec<usize> = vec![0; n];
+    let budget: usize = match size_class {
+        0 => 0,
+        1..=4 => rng.range(60000, 125000) as usize,
+        5 => rng.range(129000, 131000) as usize,
+        6 => rng.range(64000, 67000) as usize,
+        _ => rng.range(100000, 200000) as usize,
+    };
+    for k in 0..nbig {
+        let i = if rng.chance(2, 3) { rng.below(n.min(3) as u64) as usize } else { rng.below(n as u64) as usize };
+        let share = if k + 1 == nbig { budget / nbig } else { rng.range(1000, (budget / nbig) as i64) as usize };
+        plan[i] = (plan[i] + share).min(65535);
+    }
+    let mut hints: Vec<Option<String>> = vec![None; n];
+    let mut glyphs: Vec<Vec<u8>> = match rng.below(3) {
+        0 => {
+            let mut fill = |rng: &mut Rng, i: usize| if plan[i] > 0 { Some(filler(rng, plan[i])) } else { None };
+            dag_glyphs(rng, n, false, &mut fill)
+        }
+        _ => {
+            let mut gs = vec![];
+            for i in 0..n {
+                if rng.chance(1, 8) {
+                    gs.push(vec![]);
+                    continue;
+                }
+                let cs = gen_contours(rng);
+                let fl = if plan[i] > 0 { Some(filler(rng, plan[i])) } else { None };
+                gs.push(simple_glyph_as(rng, false, &cs, fl));
+                hints[i] = Some(hint(&cs));
+            }
+            gs
+        }
+    };
+    // padding: the short format needs even record lengths; compilers align to 2 or 4
+    let align = if short { *rng.pick(&[2usize, 2, 4]) } else { *rng.pick(&[1usize, 1, 2, 4]) };
+    for g in glyphs.iter_mut() {
+        while !g.is_empty() && g.len() % align != 0 {
+            g.push(0);
+        }
+    }
+    // a record that starts exactly on / next to a boundary of the offset encodings
+    if size_class != 0 && rng.chance(1, 2) {
+        let t = *rng.pick(&[65534usize, 65536, 65536, 65538, 65540, 131068, 131070, 131072]);
+        let t = t - t % align;
+        let j = rng.range(1, n as i64) as usize; // n: the end of the table
+        let off: usize = glyphs[..j].iter().map(|g| g.len()).sum();
+        if off < t && t - off < 70000 {
+            let k = (0..j).rev().find(|k| !glyphs[*k].is_empty()).unwrap_or(0);
+            if !glyphs[k].is_empty() {
+                let pad = if rng.chance(1, 2) { vec![0u8; t - off] } else { filler(rng, t - off) };
+                glyphs[k].extend_from_slice(&pad);
+            }
+        }
+    }
+    let mut prefix = String::new();
+    let mut first = 0usize;
+    if rng.chance(1, 40) {
+        // many glyphs: the visited ones have large glyph ids
+        first = *rng.pick(&[255usize, 256, 32767, 32768, 65535 - n, 65534 - n, 1000]);
+        prefix = format!("{}#-,", first);
+    }
+    let total: usize = glyphs.iter().map(|g| g.len()).sum();
+    if short && (total > 131070 || glyphs.iter().any(|g| g.len() % 2 == 1)) {
+        short = false;
+    }
+    // visit a glyph stored high up more often than the others
+    let mut offs = vec![0usize];
+    for g in &glyphs {
+        offs.push(offs.last().unwrap() + g.len());
+    }
+    let high: Vec<usize> = (0..n).filter(|i| offs[i + 1] > 65536 && !glyphs[*i].is_empty()).collect();
+    let gi = if !high.is_empty() && rng.chance(3, 4) {
+        *rng.pick(&high)
+    } else if rng.chance(1, 3) {
+        *rng.pick(&[0, n - 1])
+    } else {
+        rng.below(n as u64) as usize
+    };
+    let gid = first + gi;
+    let mut line = format!("{}|{}{}", gid, prefix, glyph_list(&glyphs));
+    let explicit = first == 0 && rng.chance(1, 6);
+    if first == 0 && !explicit {
+        if let Some(h) = &hints[gi] {
+            line = format!("{}|{}", line, h);
+        }
+    }
+    if explicit {
+        // explicit loca bytes, damaged or unusual (modelled as coded; the glyph ids no longer address
+        // the glyphs generated above, so the intended contours do not travel with the input)
+        let num = n;
+        let mut vals: Vec<usize> = offs.clone();
+        let k = rng.below(vals.len() as u64) as usize;
+        match rng.below(7) {
+            0 if k > 0 => vals[k] = vals[k - 1].saturating_sub(if short { 2 } else { 1 }), // decreasing
+            1 => *vals.last_mut().unwrap() += if short { 2 } else { rng.range(1, 4) as usize }, // past the end
+            2 => vals[k] += 100000,                                                             // far past the end
+            3 => {
+                vals.pop(); // one entry short for numGlyphs
+            }
+            4 => vals.push(total), // one entry more than needed
+            5 if k > 0 && k + 1 < vals.len() => vals[k] = vals[k + 1], // glyph k-1 swallows glyph k
+            _ => {}
+        }
+        let mut loca = vec![];
+        for v in vals {
+            if short {
+                loca.extend_from_slice(&((v / 2) as u16).to_be_bytes());
+            } else {
+                loca.extend_from_slice(&(v as u32).to_be_bytes());
+            }
+        }
+        let num = if rng.chance(1, 10) { rng.below(num as u64 + 2) as usize } else { num };
+        return format!("{}|L{}:{}:{}", line, if short { 's' } else { 'l' }, num, chex(&loca));
+    }
+    format!("{}|L{}", line, if short { 's' } else { 'l' })
+}
+
 pub fn gen(rng: &mut Rng) -> String {
+    // rare, large cases first: width boundaries of the point numbers and of the loca offsets
+    let rare = rng.below(400);
+    match rare {
+        0 | 1..=4 => {
+            let (g, cs) = boundary_glyph(rng, rare == 0);
+            if rng.chance(1, 5) {
+                // ... reached through a composite
+                let dx = rng.range(-50, 50) as i32;
+                let mut c = vec![0xff, 0xff, 0, 0, 0, 0, 0, 0, 0, 0, 0x00, 0x03, 0x00, 0x01];
+                c.extend_from_slice(&be16(dx));
+                c.extend_from_slice(&be16(0));
+                return format!("0|{},{}", hex(&c), chex(&g));
+            }
+            let mut glyphs = vec![g];
+            let mut gid = 0;
+            if rng.chance(1, 3) {
+                glyphs.insert(0, simple_glyph(rng, false));
+                gid = 1;
+            }
+            let l = match rng.below(4) {
+                0 if glyphs.iter().all(|g| g.len() % 2 == 0) => "|Ls",
+                1 => "|Ll",
+                _ => "",
+            };
+            return format!("{}|{}|{}{}", gid, glyph_list(&glyphs), hint(&cs), l);
+        }
+        5..=12 => return gen_table(rng),
+        _ => {}
+    }
     let kind = rng.below(20);
     let mut glyphs: Vec<Vec<u8>> = vec![];
     let gid: u16;
@@ -496,42 +990,7 @@ pub fn gen(rng: &mut Rng) -> String {
         11..=16 => {
             // composite DAG: glyph i refers to glyphs with a larger index
             let n = rng.range(2, 8) as usize;
-            let scales = rng.chance(1, 2);
-            let exotic = rng.chance(1, 8);
-            let nsimple = rng.range(1, 2.max(n as i64 / 2)) as usize;
-            for i in 0..n {
-                if i >= n - nsimple {
-                    let bad = rng.chance(1, 30);
-                    let mut g = simple_glyph(rng, bad);
-                    if rng.chance(1, 12) {
-                        g = vec![];
-                    }
-                    glyphs.push(g);
-                } else {
-                    let nc = match rng.below(6) {
-                        0..=2 => 1,
-                        3..=4 => 2,
-                        _ => 3,
-                    };
-                    let mut ts = vec![];
-                    for _ in 0..nc {
-                        let t = if rng.chance(1, 40) {
-                            rng.below(n as u64 + 2) as u16 // any: cycles, out of range
-                        } else if rng.chance(1, 2) {
-                            (i + 1) as u16
-                        } else {
-                            rng.range(i as i64 + 1, n as i64 - 1) as u16
-                        };
-                        ts.push(t);
-                    }
-                    let mut g = composite_glyph(rng, &ts, scales, exotic);
-                    if rng.chance(1, 40) && !g.is_empty() {
-                        let cut = rng.below(g.len() as u64) as usize;
-                        g.truncate(cut);
-                    }
-                    glyphs.push(g);
-                }
-            }
+            glyphs = dag_glyphs(rng, n, true, &mut |_, _| None);
             gid = if rng.chance(3, 4) { 0 } else { rng.below(n as u64) as u16 };
         }
         17..=18 => {
